@@ -1,5 +1,6 @@
 // C16 correspondence harness: replays operation histories on tlx::RingBuffer<Tracked, CountingAlloc>
 // and tlx::SimpleVector<Tracked>; prints one result line per case (same format as ocaml/C16_driver.ml).
+#include <cstdint>
 #include <cstdio>
 #include <cstdlib>
 #include <cstring>
@@ -84,6 +85,23 @@ static std::string final_status() {
     return "ok";
 }
 
+// mock archives for RingBuffer::save / load (the members are written for cereal: ar(a, b) saves / loads its arguments in order)
+struct OutAr {
+    std::vector<unsigned long> nums; std::vector<Tracked> items;
+    void one(const size_t& x) { nums.push_back(x); }
+    void one(const std::uint32_t& x) { nums.push_back(x); }
+    void one(const Tracked& t) { items.push_back(t); }
+    template <typename... A> void operator()(const A&... a) { int d[] = { 0, (one(a), 0)... }; (void)d; }
+};
+struct InAr {
+    const OutAr& src; size_t ni = 0, ii = 0;
+    explicit InAr(const OutAr& s) : src(s) {}
+    void one(size_t& x) { x = src.nums.at(ni++); }
+    void one(std::uint32_t& x) { x = static_cast<std::uint32_t>(src.nums.at(ni++)); }
+    void one(Tracked& t) { t = src.items.at(ii++); }
+    template <typename... A> void operator()(A&... a) { int d[] = { 0, (one(a), 0)... }; (void)d; }
+};
+
 template <typename RB>
 static std::string run_ring_t(const std::vector<std::string>& names, std::vector<std::vector<long>>& ops) {
     reset_ledgers();
@@ -108,6 +126,7 @@ static std::string run_ring_t(const std::vector<std::string>& names, std::vector
             else if (n == "PoF") x.pop_front();
             else if (n == "PoB") x.pop_back();
             else if (n == "CL") x.clear();
+            else if (n == "SL") { OutAr oa; const RB& src = *r[f[1]]; src.save(oa); InAr ia(oa); x.load(ia); }   // save f[1], load into f[0]
             else if (n == "CA") { if (f[0] != f[1]) x = *r[f[1]]; else { RB& y = x; x = y; } }
             else if (n == "MA") { if (f[0] != f[1]) x = std::move(*r[f[1]]); }
             else if (n == "CC") { if (f[0] != f[1]) r[f[0]].reset(new RB(*r[f[1]])); }
@@ -159,6 +178,8 @@ static void run_svec(std::istringstream& in) {
             else if (n == "R") x.resize(f[1]);
             else if (n == "S") x[f[1]] = Tracked(static_cast<int>(f[2]));
             else if (n == "X") x.destroy();
+            else if (n == "F") { if (f[1] % 2) x.fill(Tracked(static_cast<int>(f[1]))); else { Tracked t(static_cast<int>(f[1])); x.fill(t); } }
+            else if (n == "F0") x.fill();   // default argument: value_type()
             else if (n == "MA") { if (f[0] != f[1]) x = std::move(*r[f[1]]); }
             else if (n == "MC") { if (f[0] != f[1]) r[f[0]].reset(new SV(std::move(*r[f[1]]))); }
             else if (n == "SW") x.swap(*r[f[1]]);
